@@ -339,7 +339,7 @@ def minimal_failing(ctx, kind, ty, e):
 
 
 def check(ctx):
-    cases = list(CORPUS) + gen_cases(ctx, 6000 if ctx.thorough else 600, 5 if ctx.thorough else 4)
+    cases = list(CORPUS) + gen_cases(ctx, 4000 if ctx.thorough else 600, 5 if ctx.thorough else 4)
     seen, uniq = set(), []
     for c in cases:
         if c not in seen:
